@@ -46,7 +46,7 @@ type variantMeta struct {
 	Patch      string   `json:"patch"`
 	Properties []string `json:"properties"`
 	Rules      []string `json:"expect_rules"` // any of these rules must report
-	Kind       string   `json:"kind"`         // "mutant" | "benign"
+	Kind       string   `json:"kind"`         // "mutant" | "benign" | "repair"
 	Note       string   `json:"note"`
 }
 
@@ -195,6 +195,25 @@ func selfTest(prop string, def *propDef, tier, root string) ([]string, bool) {
 					lines = append(lines, fmt.Sprintf("mutant %s: detected, but not by the expected rule %v: %v", v.Patch, v.Rules, trunc(newFails, 3)))
 				} else {
 					lines = append(lines, fmt.Sprintf("mutant %s: detected by %v", v.Patch, trunc(newFails, 3)))
+				}
+			case "repair":
+				// a scratch repair of an open known finding: the finding's obligation must be discharged and nothing else may fire
+				gone := false
+				now := failingKeys(c)
+				for k, o := range baseFail {
+					for _, r := range v.Rules {
+						if o.Rule == r {
+							if _, still := now[k]; !still {
+								gone = true
+							}
+						}
+					}
+				}
+				if len(newFails) > 0 || !gone {
+					lines = append(lines, fmt.Sprintf("repair %s: NOT RECOGNISED (finding still reported: %v; new failures: %v)", v.Patch, !gone, trunc(newFails, 3)))
+					ok = false
+				} else {
+					lines = append(lines, fmt.Sprintf("repair %s: finding discharged, nothing else fires", v.Patch))
 				}
 			case "benign":
 				if len(newFails) > 0 {
